@@ -848,3 +848,201 @@ Theorem C16_source_constants :
   Gen.Consts.rpcbackend_RPCCodeInternalError = Rpc.Model.RPCCodeInternalError.
 Proof. vm_compute. repeat split; reflexivity. Qed.
 Print Assumptions C16_source_constants.
+
+(* ======== wave 6: histories in which every request has its own scheduler (closes `partial` "I3 scheduler";
+   Rpc/W6C16Sched.v; nothing above was changed) ========
+
+   WfModel.serve threads ONE scheduler function through a whole history, so two batches of equal size served
+   from the same world complete in the same order and C16_history_refines_C09 covered only the concrete
+   histories with that regularity.  [serve_each] serves a history whose entries each carry their own
+   scheduler (the handler, WfModel.rpcHandler, is unchanged). *)
+From FFS Require Import Rpc.W6C16Sched.
+
+(* 35. WfModel.serve is the special case "the same scheduler in every entry". *)
+Theorem C16_serve_is_each :
+  forall (W F : Type)
+         (sync_request : W -> request -> (option response * bool) * W)
+         (call_nonce : W -> F -> option rpc_error * W)
+         (get_accounts : W -> option (list bytes) * W)
+         (sign : W -> txn_view F -> option bytes * W)
+         (decode_txn : option jv -> option (txn_view F))
+         (parse_from : F -> bool)
+         (sched : W -> nat -> list nat) (h : list (bytes * verdict)) (w : W),
+    serve_each W F sync_request call_nonce get_accounts sign decode_txn parse_from w (map (fun bv => (bv, sched)) h)
+    = serve W F sync_request call_nonce get_accounts sign decode_txn parse_from sched w h.
+Proof. exact serve_each_const. Qed.
+Print Assumptions C16_serve_is_each.
+
+(* 36. C16_history_any for independently scheduled requests: every entry's scheduler is a permutation of the
+       members (per entry; nothing relates the schedulers of two entries), sync_wf: the history is served to its end
+       and every reply is well-formed and never null. *)
+Theorem C16_history_each :
+  forall (W F : Type)
+         (sync_request : W -> request -> (option response * bool) * W)
+         (call_nonce : W -> F -> option rpc_error * W)
+         (get_accounts : W -> option (list bytes) * W)
+         (sign : W -> txn_view F -> option bytes * W)
+         (decode_txn : option jv -> option (txn_view F))
+         (parse_from : F -> bool),
+    sync_wf sync_request ->
+    forall h : list (entry W),
+    Forall (fun e => forall w n, Permutation (snd e w n) (seq 0 n)) h ->
+    forall w : W,
+    exists reps w',
+      serve_each W F sync_request call_nonce get_accounts sign decode_txn parse_from w h = Ok (reps, w') /\
+      Forall2 (fun (e : entry W) rep => wellformed_reply (fst (fst e)) (snd (fst e)) rep /\
+                             never_null_reply F decode_txn parse_from (fst (fst e)) (snd (fst e)) rep) h reps.
+Proof. exact serve_each_history. Qed.
+Print Assumptions C16_history_each.
+
+(* 36b. ... the never-null clause with no hypothesis on the backend (C16_history_never_null). *)
+Theorem C16_history_each_never_null :
+  forall (W F : Type)
+         (sync_request : W -> request -> (option response * bool) * W)
+         (call_nonce : W -> F -> option rpc_error * W)
+         (get_accounts : W -> option (list bytes) * W)
+         (sign : W -> txn_view F -> option bytes * W)
+         (decode_txn : option jv -> option (txn_view F))
+         (parse_from : F -> bool)
+         (h : list (entry W)),
+    Forall (fun e => forall w n, Permutation (snd e w n) (seq 0 n)) h ->
+    forall w : W,
+    exists reps w',
+      serve_each W F sync_request call_nonce get_accounts sign decode_txn parse_from w h = Ok (reps, w') /\
+      Forall2 (fun (e : entry W) rep =>
+                 never_null_reply F decode_txn parse_from (fst (fst e)) (snd (fst e)) rep) h reps.
+Proof. exact serve_each_never_null. Qed.
+Print Assumptions C16_history_each_never_null.
+
+(* 36c. ... and the id clause (C16_history_id_echo), under sync_echo. *)
+Theorem C16_history_each_id_echo :
+  forall (W F : Type)
+         (sync_request : W -> request -> (option response * bool) * W)
+         (call_nonce : W -> F -> option rpc_error * W)
+         (get_accounts : W -> option (list bytes) * W)
+         (sign : W -> txn_view F -> option bytes * W)
+         (decode_txn : option jv -> option (txn_view F))
+         (parse_from : F -> bool),
+    sync_echo sync_request ->
+    forall h : list (entry W),
+    Forall (fun e => forall w n, Permutation (snd e w n) (seq 0 n)) h ->
+    forall w : W,
+    exists reps w',
+      serve_each W F sync_request call_nonce get_accounts sign decode_txn parse_from w h = Ok (reps, w') /\
+      Forall2 (fun (e : entry W) rep => id_echo_reply (fst (fst e)) (snd (fst e)) rep) h reps.
+Proof. exact serve_each_ids. Qed.
+Print Assumptions C16_history_each_id_echo.
+
+(* 37. The permutation hypothesis is needed for EACH entry: after any served prefix, one entry whose scheduler
+       names a goroutine that does not exist (a decodable non-empty batch) ends the history in Panic. *)
+Theorem C16_each_sched_guard_needed :
+  forall (W F : Type)
+         (sync_request : W -> request -> (option response * bool) * W)
+         (call_nonce : W -> F -> option rpc_error * W)
+         (get_accounts : W -> option (list bytes) * W)
+         (sign : W -> txn_view F -> option bytes * W)
+         (decode_txn : option jv -> option (txn_view F))
+         (parse_from : F -> bool)
+         (pre : list (entry W)) (b : bytes) (v : verdict) (s : W -> nat -> list nat) (post : list (entry W))
+         (w : W) (reqs : list (option request)) (i : nat) (rest : list nat),
+    Forall (fun e => forall w n, Permutation (snd e w n) (seq 0 n)) pre ->
+    byte_eqb (sniff_first_byte b) open_bracket = true ->
+    decode_batch v = Ok reqs -> reqs <> [] ->
+    (forall w1, s w1 (length reqs) = i :: rest) -> (length reqs <= i)%nat ->
+    serve_each W F sync_request call_nonce get_accounts sign decode_txn parse_from w (pre ++ ((b, v), s) :: post) = Panic.
+Proof. exact serve_each_bad_entry_panics. Qed.
+Print Assumptions C16_each_sched_guard_needed.
+
+(* 38. C16_history_refines_C09 for EVERY concrete history, with no hypothesis at all (not on the backend, the
+       signer, the orders, nor any regularity between entries): whenever C09's concrete model serves the history
+       of (body, completion order) pairs, the replies are serialisations of payloads whose abstractions are what
+       WfModel serves, from every world, for the history in which entry i is scheduled by its own order. *)
+Theorem C16_history_each_simulation :
+  forall (parse_int : bytes -> option Z) (lex : bytes -> option Json.json) (accounts : list bytes)
+         (sign_with : bytes -> Json.transaction -> Z -> res bytes)
+         (backend : Model.frame -> Model.backend_reply) (chain : Z)
+         (h : list (bytes * list nat)) (reps : list Model.http_reply),
+    serve_c parse_int lex accounts sign_with backend chain h = Ok reps ->
+    exists cps, Forall2 (fun hr cp => reply_tree_of hr = cp_tree cp) reps cps /\
+      forall w, exists w',
+        serve_each RefineSim.W RefineSim.F (i_sync backend) (i_call_nonce parse_int backend) (i_get_accounts accounts)
+                   (i_sign sign_with chain) (i_decode_txn parse_int) i_parse_from w
+                   (abs_history lex (fun o _ _ => o) h)
+        = Ok (abs_replies reps cps, w').
+Proof. exact serve_each_sim. Qed.
+Print Assumptions C16_history_each_simulation.
+
+(* 39. The total version: the signer returns and every order is a permutation of the members its body decodes to
+       (the guards of C16_refines_C09, per entry).  The concrete history is served to its end; the abstract history
+       under the schedulers [i_sched order_i] -- each a permutation scheduler, so 36-36c apply to it -- yields the
+       abstraction of the same replies from every world. *)
+Theorem C16_history_each_refines_C09 :
+  forall (parse_int : bytes -> option Z) (lex : bytes -> option Json.json) (accounts : list bytes)
+         (sign_with : bytes -> Json.transaction -> Z -> res bytes)
+         (backend : Model.frame -> Model.backend_reply) (chain : Z),
+    (forall a t c, sign_with a t c <> Panic) ->
+    forall h : list (bytes * list nat),
+    Forall (fun bo => forall t ms, lex (fst bo) = Some t -> Json.decode_batch t = Ok ms ->
+                                   Permutation (snd bo) (seq 0 (length ms))) h ->
+    exists reps cps,
+      serve_c parse_int lex accounts sign_with backend chain h = Ok reps /\
+      Forall2 (fun hr cp => reply_tree_of hr = cp_tree cp) reps cps /\
+      Forall (fun e : entry RefineSim.W => forall w n, Permutation (snd e w n) (seq 0 n)) (abs_history lex i_sched h) /\
+      forall w, exists w',
+        serve_each RefineSim.W RefineSim.F (i_sync backend) (i_call_nonce parse_int backend) (i_get_accounts accounts)
+                   (i_sign sign_with chain) (i_decode_txn parse_int) i_parse_from w
+                   (abs_history lex i_sched h)
+        = Ok (abs_replies reps cps, w').
+Proof. exact serve_each_refines. Qed.
+Print Assumptions C16_history_each_refines_C09.
+
+(* ---- non-vacuity of 35-39 ---- *)
+
+(* the same two-member batch (a relayed request, a null member) twice, completing in the two different orders:
+   no single scheduler meets the hypothesis of C16_history_refines_C09 for this history; the guards of 39 hold;
+   both models serve it, with the same slots *)
+Example C16_history_each_nonvacuous :
+  let sign_with := fun (_ : bytes) (_ : Json.transaction) (_ : Z) => @Err bytes 3%nat in
+  let lex := fun _ : bytes => Some exc_tree in
+  let body := ascii_bytes "[x]" in
+  let h := [(body, [0; 1]%nat); (body, [1; 0]%nat)] in
+  (~ exists sched : RefineSim.W -> nat -> list nat,
+       forall b o, In (b, o) h -> forall w t ms, lex b = Some t -> Json.decode_batch t = Ok ms -> sched w (length ms) = o) /\
+  Forall (fun bo => forall t ms, lex (fst bo) = Some t -> Json.decode_batch t = Ok ms ->
+                                 Permutation (snd bo) (seq 0 (length ms))) h /\
+  (exists a1 a2 b1 b2 t1 t2,
+     serve_c (fun _ => None) lex [] sign_with exc_backend 1%Z h
+     = Ok [(500%N, Json.JArr [a1; a2], t1); (500%N, Json.JArr [b1; b2], t2)] /\
+     tree_member "result" a1 = Some (Json.JStr (Json.bs "0xabc")) /\ tree_member "error" a2 <> None /\
+     tree_member "result" b1 = Some (Json.JStr (Json.bs "0xabc")) /\ tree_member "error" b2 <> None) /\
+  exists r1 r2 r3 r4 w',
+    serve_each RefineSim.W RefineSim.F (i_sync exc_backend) (i_call_nonce (fun _ => None) exc_backend) (i_get_accounts [])
+               (i_sign sign_with 1%Z) (i_decode_txn (fun _ => None)) i_parse_from None (abs_history lex i_sched h)
+    = Ok ([mkReply 500 (PBatch [Some r1; Some r2]); mkReply 500 (PBatch [Some r3; Some r4])], w') /\
+    r_result r1 = Some (JStr (ascii_bytes "0xabc")) /\ r_error r2 <> None /\
+    r_result r3 = Some (JStr (ascii_bytes "0xabc")) /\ r_error r4 <> None.
+Proof.
+  cbv zeta. split.
+  { intros [sched Hs].
+    pose proof (Hs _ _ (or_introl eq_refl) None exc_tree [Some (Json.mkReq [] (Some (Json.JStr (Json.bs "a"))) (Json.bs "eth_call") []); None] eq_refl) as H1.
+    pose proof (Hs _ _ (or_intror (or_introl eq_refl)) None exc_tree [Some (Json.mkReq [] (Some (Json.JStr (Json.bs "a"))) (Json.bs "eth_call") []); None] eq_refl) as H2.
+    assert (Ed : Json.decode_batch exc_tree = Ok [Some (Json.mkReq [] (Some (Json.JStr (Json.bs "a"))) (Json.bs "eth_call") []); None])
+      by (vm_compute; reflexivity).
+    specialize (H1 Ed). specialize (H2 Ed). rewrite H1 in H2. discriminate. }
+  split.
+  { repeat constructor; cbn [fst snd]; intros t ms El Ed; injection El as <-; vm_compute in Ed; injection Ed as <-;
+      [apply Permutation_refl|apply perm_swap]. }
+  split.
+  { eexists _, _, _, _, _, _. split; [vm_compute; reflexivity|]. repeat (split; [reflexivity || discriminate|]). discriminate. }
+  eexists _, _, _, _, _. split; [vm_compute; reflexivity|].
+  repeat (split; [reflexivity || discriminate|]). discriminate.
+Qed.
+
+(* 37: a served entry, then an entry whose scheduler names goroutine 5 of a batch of one *)
+Example C16_each_sched_guard_nonvacuous :
+  serve_each unit unit ex_sync (fun w _ => (None, w)) (fun w => (Some [ascii_bytes "0x01"], w)) (fun w _ => (None, w))
+             (fun _ => None) (fun _ => false) tt
+             [((ascii_bytes "[null]", Tree (JArr [JNull])), fun _ n => rev (seq 0 n));
+              ((ascii_bytes "[null]", Tree (JArr [JNull])), fun _ _ => [5%nat])]
+  = Panic.
+Proof. vm_compute. reflexivity. Qed.
